@@ -7,7 +7,8 @@ from contracts import release_init as RI
 
 UNITS = list(S.SAMPLE2D_UNITS) + [O.Write("sparse", lonlat=True)] + [u for u in RI.RELEASE_INIT_UNITS if "clean_position" in u.unit_name()]
 LEMMAS = [L.LerpBound(), L.MaskedIgnored(), L.MaskedTerm()]
-NATIVE = [dict(name="lon/lat round trip on synthetic conformal grids and subgrids; sample2D corpus", harness="lonlat_bounded", kind="bounded"), 
+NATIVE = [dict(name="lon/lat round trip on synthetic conformal grids and subgrids; sample2D corpus", harness="lonlat_bounded", kind="bounded"),
+          dict(name="whole output runs with lon/lat requested (both layouts, split files) read back against xy2ll of the record's positions", harness="output_runs_bounded", kind="bounded", timeout=3000),
           dict(name="encoder validation: the interpreter in concrete mode vs the real numpy/numba functions", harness="validate_encoder", kind="validation", prepare="pyvc.validate:run_validation")]
 LEVEL = "other"
 LEVEL_TEXT = ("Proved for all inputs: sample2D equals the specified bilinear sample (weights renormalised over unmasked corners, undef_value when all four are masked), is a convex "
